@@ -18,6 +18,7 @@ def gen(tier, rng):
     fam = cleanup_writes(tier, rng)
     out += fam
     out += root_handle_disposal(fam)
+    out += self_disposing_cleanups()
     return out
 
 
@@ -100,6 +101,30 @@ def cleanup_creates():
     return out
 
 
+def self_disposing_cleanups():
+    """the cleanup registered by the previous run of an effect / memo disposes that very computation, or a scope that owns it: the
+    re-run has just run the cleanup when it finds itself destroyed and must not run the body again"""
+    out = []
+    k = 0
+    for kind in ("effect", "memo"):
+        for target in ("self", "owner", "grand"):
+            for extra in ("none", "child", "write"):
+                body_ss = [("curscope", 4)]
+                tgt = {"self": 4, "owner": 2, "grand": 6}[target]
+                cl = [("dispose", tgt)]
+                if extra == "write":
+                    cl.append(("set", 8, ("lit", 5)))
+                body_ss.append(("oncleanup", 1, cl))
+                if extra == "child":
+                    body_ss.append(("effect", 5, ("body", None, [("oncleanup", 2, [])], ("get", 1))))
+                comp = (kind, 3, ("body", None, body_ss, ("get", 1)))
+                prog = [("signal", 1, ("lit", 0)), ("signal", 8, ("lit", 0)), ("scope", 6, [("scope", 2, [comp])]),
+                        ("effect", 9, ("body", None, [], ("add", ("get", 8), ("get", 1)))),
+                        ("set", 1, ("lit", 1)), ("set", 1, ("lit", 2)), ("set", 8, ("lit", 1))]
+                out.append(("self-disposing-cleanup:%d" % k, prog)); k += 1
+    return out
+
+
 def root_handle_disposal(fam):
     """the same shapes left ALIVE until the end of the scenario, where the driver disposes the root through its RootHandle (from
     outside the root): cleanups that write what live effects / memos read (which then run, register cleanups and create nodes in
@@ -158,7 +183,7 @@ def item_scopes():
 def main(argv):
     return rcheck.run(
         PID, argv, module="C04", theorems=["C04_program_final_state", "C04_dispose_not_alive", "C04_dispose_leak_free", "C04_dispose_no_edges",
-                                        "C04_dispose_cleanups_exact", "C04_cleanups_conserved", "C04_disposed_node_stays_clean"], gen=gen, oracle=rcheck.ownership_failures, nontrivial=nontrivial,
+                                        "C04_dispose_cleanups_exact", "C04_cleanups_conserved", "C04_disposed_node_stays_clean", "C04_disposed_by_cleanup_not_rerun", "C04_rerun_iff_survived"], gen=gen, oracle=lambda prog, steps: rcheck.ownership_failures(prog, steps) + rcheck.destroyed_runs_again(prog, steps), nontrivial=nontrivial,
         rule=("random ownership trees (scopes, effects creating effects/memos/signals/cleanups, run_in) x interleavings of "
               "re-runs, explicit disposals (also from callbacks and cleanups), closed by disposal of the root; non-trivial = "
               ">= 2 cleanups ran and some node was destroyed before the root disposal; distinct = distinct program text"),
